@@ -148,6 +148,19 @@ pub fn c01_key(f: &Finding, p: &Program, _o: &Outcome) -> Option<String> {
             if f.got.contains("near \"OFFSET\"") && has(&sp, |s| matches!(s, Step::Take(Some(l), None) if *l > 1)) && offset_without_limit(&f.sql) {
                 return Some("offset-without-limit".into());
             }
+            // two columns of one bare name at a sub-query split: the second is projected `rel.a AS _expr_N`, and the
+            // ORDER BY of that SELECT names it `rel._expr_N`, a column the relation does not have (pinned by the
+            // snapshot of test_sorts_03)
+            if let Some(rest) = f.got.split("no such column: ").nth(1) {
+                let qualified: String = rest.chars().take_while(|c| c.is_alphanumeric() || *c == '_' || *c == '.').collect();
+                if let Some((rel, helper)) = qualified.split_once("._expr_") {
+                    let helper = format!("_expr_{helper}");
+                    let order_by_names_it = f.sql.split("ORDER BY").skip(1).any(|o| o.split(')').next().unwrap_or("").contains(&format!("{rel}.{helper}")));
+                    if !rel.is_empty() && f.sql.contains(&format!(" AS {helper}")) && order_by_names_it {
+                        return Some("orderby-qualifies-renamed-column-with-its-relation".into());
+                    }
+                }
+            }
             if f.got.contains("no such column: _expr_") && f.sql.contains("ORDER BY") && f.sql.contains(".*") {
                 return Some("orderby-helper-undefined-for-wildcard-column".into());
             }
@@ -251,7 +264,7 @@ pub fn c01_key(f: &Finding, p: &Program, _o: &Outcome) -> Option<String> {
                 }
                 _ => false,
             });
-            if dup_in_select {
+            if dup_in_select && !f.msg.contains(crate::relcheck::MERGED_MARK) {
                 return Some("same-name-twice-in-select-merged".into());
             }
             // an alias re-using a column name next to a wildcard: the wildcard's column and a helper come back
